@@ -496,7 +496,7 @@ def evalEN (cfg : ECfg) (al : List (Str × Val)) (env : Env) : Nat → EN → XM
         let b ← xLiftR (Val.truthy cfg.tab v)
         pure (if b then .str s else .none)
     | .interp tok esc dflt literalFalse required translation => do
-      match compileInterp cfg.tc 64 tok required true with
+      match compileInterp cfg.tc 64 tok required cfg.tc.decodeInterp with
       | .error (.template cls msg etok) => do
         xSetTokenRaw etok.pos etok.str.length
         xRaise { cls := cls, msg := Str.ofString msg }
